@@ -12,10 +12,11 @@ export -f run
 {
 for d in seeded/*/; do id=$(basename $d); pid=${id%%-*}; echo "$id $d/patch.diff $pid"; done
 # seeds whose mechanism lives in another property's check
-for x in C01-m1:C04 C01-m3:C04 C01-m4:C04 C06-m2:C04 C06-m3:C04 C08-m4:C04 C12-m2:C18 C12-m4:C18 C10-m3:C19 C05-m4:C15 C03-m3:C08 C13-m4:C08 C16-m3:C11; do echo "${x%%:*} seeded/${x%%:*}/patch.diff ${x#*:}"; done
+for x in C01-m1:C04 C01-m3:C04 C01-m4:C04 C06-m2:C04 C06-m3:C04 C08-m4:C04 C12-m2:C18 C12-m4:C18 C10-m3:C19 C05-m4:C15 C03-m3:C08 C13-m4:C08 C16-m3:C11 C01-m5:C04 C06-m5:C04 C17-m6:C04 C07-m5:C04 C07-m6:C17 C06-m6:C07 C04-m6:C11 C02-m5:C13 C02-m6:C13 C12-m6:C18 C08-m5:C03 C03-m5:C02; do echo "${x%%:*} seeded/${x%%:*}/patch.diff ${x#*:}"; done
 # reverted fixes: defect -> properties
 while read d pids; do for p in $pids; do
-  if [ -f fixes/fix_${d}_revert.diff ]; then echo "rev-$d fixes/fix_${d}_revert.diff $p"; else echo "rev-$d fixes/fix_$d.diff $p --reverse"; fi
+  r=$(ls fixes/round7/*_${d}.diff fixes/round8/*_${d}.diff 2>/dev/null | head -1)
+  if [ -f fixes/fix_${d}_revert.diff ]; then echo "rev-$d fixes/fix_${d}_revert.diff $p"; elif [ -n "$r" ]; then echo "rev-$d $r $p --reverse"; else echo "rev-$d fixes/fix_$d.diff $p --reverse"; fi
 done; done <<'T'
 D01 C01
 D02 C01 C04
@@ -79,6 +80,42 @@ D79 C20
 D80 C05 C01
 D81 C12
 D82 C14
+D83 C01
+D84 C01
+D85 C04
+D86 C04
+D87 C06
+D88 C06
+D89 C08
+D90 C13
+D91 C13
+D92 C16
+D93 C16
+D94 C09
+D95 C11
+D96 C13
+D97 C07 C04
+D98 C14
+D99 C15
+D100 C15
+D101 C09 C11
+D102 C11
+D103 C11 C09 C04
+D104 C15
+D106 C04
+D107 C18
+D108 C02
+D109 C20
+D110 C09 C11
+D111 C02
+D112 C12
+D113 C20
+D114 C11 C09
+D151 C05
+D152 C05
+D153 C05
+D154 C05
+D155 C17
 T
 } | xargs -P $jobs -L 1 bash -c 'run "$0" "$1" "$2" "$3"'
 cat /tmp/seedmx_*.out | sort > seeded/RESULTS.txt
